@@ -398,5 +398,20 @@ example :
     (deadHolder.run [.step 0, .expire demoServer.addr.key, .step 1]).store.locks[demoServer.addr.key]? = some ⟨1, true⟩ := by
   refine ⟨by decide, by rfl, by decide⟩
 
-end Swat4.C10
+set_option maxRecDepth 100000 in
+/-- the hypotheses of `blocked_while_held` / `holder_death_unblocks_writer` hold in that state: client 1 stands at its
+`SET NX` while client 0's cell is there; its step changes nothing in the store, and after the expiry it acquires -/
+example :
+    ((deadHolder.run [.step 0]).step (.step 1)).store = (deadHolder.run [.step 0]).store ∧
+    (((deadHolder.run [.step 0]).step (.expire demoServer.addr.key)).step (.step 1)).store.locks[demoServer.addr.key]? =
+      some ⟨1, true⟩ :=
+  ⟨blocked_while_held (deadHolder.run [.step 0]) 1 (Writer.start ⟨.add, demoServer, fun _ => none⟩ 1) rfl rfl ⟨0, true⟩
+      (by decide),
+   (holder_death_unblocks_writer (deadHolder.run [.step 0]) 1 (Writer.start ⟨.add, demoServer, fun _ => none⟩ 1) rfl rfl).1⟩
 
+/-- `lockExpire_respects_ttl` applies to everything reachable from the empty keyspace -/
+example (es : List Ev) (k : Nat) (d : Bool) :
+    (deadHolder.run es).store.lockExpire k d = (deadHolder.run es).store.lockExpireTTL k d :=
+  (lockExpire_respects_ttl deadHolder consistent_empty es k d).1
+
+end Swat4.C10
